@@ -15,6 +15,7 @@ import time
 
 VERIF = os.path.dirname(os.path.dirname(os.path.abspath(__file__)))
 REPO = os.environ.get("RSJ_REPO", "/repo")
+DEFAULT_REPO = REPO
 CACHE = os.path.join(VERIF, ".cache")
 DRIVER_DIR = os.path.join(VERIF, "driver")
 DRIVER_BIN = os.path.join(DRIVER_DIR, "target", "debug", "rsj-facts")
@@ -123,6 +124,29 @@ def extract(repo=None, config="default", target_dir=None, out_dir=None, quiet=Tr
     return out_dir
 
 
+def _acquire_target(scratch):
+    """(target dir, open lock file) — /repo's own tree uses the warmed .cache/target; scratch trees (self-test replays) use a
+    small pool so that several of them can be extracted at the same time"""
+    if not scratch:
+        path = os.path.join(CACHE, "target")
+        lk = open(path + ".lock", "w")
+        fcntl.flock(lk, fcntl.LOCK_EX)
+        return path, lk
+    pool = os.path.join(CACHE, "target-pool")
+    os.makedirs(pool, exist_ok=True)
+    n = int(os.environ.get("VERIF_TARGET_POOL", "4"))
+    while True:
+        for k in range(n):
+            path = os.path.join(pool, "t%d" % k)
+            lk = open(path + ".lock", "w")
+            try:
+                fcntl.flock(lk, fcntl.LOCK_EX | fcntl.LOCK_NB)
+                return path, lk
+            except OSError:
+                lk.close()
+        time.sleep(0.5)
+
+
 def ensure_facts(config="default", repo=None):
     """Return directory with facts for the current tree of `repo`, extracting if not cached."""
     repo = repo or REPO
@@ -130,14 +154,26 @@ def ensure_facts(config="default", repo=None):
     base = os.path.join(CACHE, "facts", th, config)
     ok = os.path.join(base, "OK")
     os.makedirs(os.path.join(CACHE, "facts"), exist_ok=True)
-    lock_path = os.path.join(CACHE, "facts", "lock")
+    if os.path.exists(ok):
+        try:
+            os.utime(os.path.join(CACHE, "facts", th))
+        except OSError:
+            pass
+        return base
+    lock_path = os.path.join(CACHE, "facts", "%s.%s.lock" % (th, config))
     with open(lock_path, "w") as lk:
         fcntl.flock(lk, fcntl.LOCK_EX)
         try:
             if not os.path.exists(ok):
                 if os.path.isdir(base):
                     shutil.rmtree(base)
-                extract(repo, config, out_dir=base)
+                scratch = os.path.realpath(repo) != os.path.realpath(DEFAULT_REPO)
+                tdir, tlk = _acquire_target(scratch)
+                try:
+                    extract(repo, config, target_dir=tdir, out_dir=base)
+                finally:
+                    fcntl.flock(tlk, fcntl.LOCK_UN)
+                    tlk.close()
                 with open(ok, "w") as fh:
                     fh.write(th)
                 _prune_cache(keep=th)
@@ -146,16 +182,25 @@ def ensure_facts(config="default", repo=None):
     return base
 
 
-def _prune_cache(keep, max_states=4):
+def _prune_cache(keep, max_states=24, min_age_s=3 * 3600):
+    """drop the least recently used fact sets beyond max_states, never one touched in the last hours
+    (another process may be reading it)"""
     root = os.path.join(CACHE, "facts")
     ents = []
+    now = time.time()
     for d in os.listdir(root):
         p = os.path.join(root, d)
         if os.path.isdir(p) and d != keep:
             ents.append((os.path.getmtime(p), p))
+        elif d.endswith(".lock") and now - os.path.getmtime(p) > 24 * 3600:
+            try:
+                os.unlink(p)
+            except OSError:
+                pass
     ents.sort(reverse=True)
-    for _, p in ents[max_states - 1:]:
-        shutil.rmtree(p, ignore_errors=True)
+    for mt, p in ents[max_states - 1:]:
+        if now - mt > min_age_s:
+            shutil.rmtree(p, ignore_errors=True)
 
 
 # ------------------------------------------------------------------------------------------------
@@ -343,16 +388,17 @@ class Crate:
 
 
 class Facts:
-    def __init__(self, directory):
+    def __init__(self, directory, override=None):
         self.dir = directory
         self.crates = {}
-        for f in sorted(os.listdir(directory)):
-            if f.endswith(".json"):
-                with open(os.path.join(directory, f)) as fh:
-                    j = json.load(fh)
-                c = Crate(j, os.path.join(directory, f))
-                key = c.name if not c.meta["target_kind"].startswith("test") else c.name + ":" + c.meta["target_kind"]
-                self.crates[key] = c
+        for dd in ([directory] + ([override] if override else [])):
+            for f in sorted(os.listdir(dd)):
+                if f.endswith(".json"):
+                    with open(os.path.join(dd, f)) as fh:
+                        j = json.load(fh)
+                    c = Crate(j, os.path.join(dd, f))
+                    key = c.name if not c.meta["target_kind"].startswith("test") else c.name + ":" + c.meta["target_kind"]
+                    self.crates[key] = c
         self.fns = {}
         self.fn_list = []
         for c in self.crates.values():
@@ -406,5 +452,10 @@ _FACTS_CACHE = {}
 def load(config="default", repo=None):
     d = ensure_facts(config, repo)
     if d not in _FACTS_CACHE:
-        _FACTS_CACHE[d] = Facts(d)
+        if config == "nocrossterm":
+            # only rsjsonnet-front is built in this configuration: the other crates come from the default one
+            base = ensure_facts("default", repo)
+            _FACTS_CACHE[d] = Facts(base, override=d)
+        else:
+            _FACTS_CACHE[d] = Facts(d)
     return _FACTS_CACHE[d]
